@@ -530,6 +530,11 @@ def _lock_ctor(interp, args, kwargs):
     lk = interp.new_object("PLock")
     interp.field_write(lk, "held", False)       # constructing does NOT acquire
     interp.field_write(lk, "filename", SV(STR, _s(interp, args[0])))
+    g = ctx.ghost
+    if "lock_wait_is_the_short_constant" in g:
+        # how long acquire() waits before it gives up: the contract wants the short documented constant, not a value taken from elsewhere
+        t = kwargs.get("timeout", args[2] if len(args) > 2 else None)
+        g["lock_wait_is_the_short_constant"] = isinstance(t, (int, float)) and not isinstance(t, bool) and 0 < t <= 5
     return lk
 
 
